@@ -350,6 +350,7 @@ class ConcRunner {
     // ---- sequential setup (main thread)
     for (auto &op : setup) {
       const std::string &n = op.name;
+      struct CallScope { CallScope() { sched_call_begin(); } ~CallScope() { sched_call_end(); } } call_scope;   // step bounds apply to setup calls too
       if (n == "put") { std::string k, v; if (op.args.size() >= 2 && expand_bytes(op.args[0], k) && expand_bytes(op.args[1], v)) { ldb_slice_t ks = slice_of(k), vs = slice_of(v); if (ldb_put(sh.db, &ks, &vs, nullptr) != LDB_OK) VF_FAIL("C08", "setup put failed"); setup_state[k] = v; } }
       else if (n == "fill") {
         long lo = op.args.size() > 0 ? atol(op.args[0].c_str()) : 0, hi = op.args.size() > 1 ? atol(op.args[1].c_str()) : lo + 10, nb = op.args.size() > 2 ? atol(op.args[2].c_str()) : 1000;
